@@ -64,6 +64,25 @@ func (g *Gen) load(repo string, dirs []string, tags string) error {
 		BuildFlags: []string{"-tags=" + tags},
 		Env:        append(os.Environ(), "GOFLAGS=", "GOWORK="+workFile(repo)),
 	}
+	// GOVC_OVERLAY: JSON {"<abs path>": "<file with replacement content>"} (self-test mutants; /repo is not touched)
+	if ov := os.Getenv("GOVC_OVERLAY"); ov != "" {
+		data, err := os.ReadFile(ov)
+		if err != nil {
+			return err
+		}
+		m := map[string]string{}
+		if err := json.Unmarshal(data, &m); err != nil {
+			return err
+		}
+		cfg.Overlay = map[string][]byte{}
+		for path, repl := range m {
+			c, err := os.ReadFile(repl)
+			if err != nil {
+				return err
+			}
+			cfg.Overlay[path] = c
+		}
+	}
 	var pats []string
 	for _, d := range dirs {
 		pats = append(pats, d)
